@@ -30,7 +30,10 @@ REQUIRED_THEOREMS = ['OpusProps.C18.' + t for t in (
     # index-safety bridge to the synthesis interior
     'decode_core_indices_in_bounds', 'decode_core_safe_after_decode_pitch', 'plc_conceal_indices_in_bounds',
     'decode_frame_indices_in_bounds', 'silk_synthesis_indices_in_bounds', 'decode_parameters_indices_in_bounds',
-    'decode_output_indices_in_bounds')]
+    'decode_output_indices_in_bounds',
+    # no read of uninitialised LTP state
+    'decode_core_no_uninitialised_ltp_read', 'decode_core_initialised_after_decode_pitch', 'plc_conceal_no_uninitialised_ltp_read',
+    'decode_frame_no_uninitialised_ltp_read')]
 UNPROVED = ['nlsf2a_nowrap_d16 (the full statement is a comment block in OpusProps/C18.lean): for ORDERED NLSF vectors of order 16 '
             'the final subtraction a32_QA1[k] = -/+Qtmp - Ptmp (NLSF2A.c:125-126) fits 32 bits. Proved instead '
             '(nlsf2a_nowrap_d16_partial): everything before that subtraction fits for all in-range inputs, |a32_QA1| < 2^31.66, '
@@ -43,9 +46,6 @@ UNPROVED = ['nlsf2a_nowrap_d16 (the full statement is a comment block in OpusPro
             'real-arithmetic stability: inverse_pred_gain_reflection_bounded bounds the reflection coefficients of the '
             'FIXED-POINT step-down recursion by A_LIMIT = 0.99975; that the exact reflection coefficients of the real-coefficient '
             'filter are below 1 needs an error analysis of silk_INVERSE32_varQ / silk_RSHIFT_ROUND64 that is not done.',
-            'no read of uninitialised sLTP_Q15 / sLTP_Q14 (index-safety bridge): proved is that every index is inside the '
-            'array; that every read index was written before (needs |lag_k - lag_0| <= k*subfr_length, which follows from the '
-            'spread of the pitch contour tables, at most 21 < 40) is not stated as a theorem.',
             '32-bit range of the sums inside silk_NLSF_stabilize (centre frequencies, min/max centres: sums of at most 17 '
             'opus_int16 values, below 2^20) and of the NLSF interpolation are not stated as trace lemmas; their opus_int16 stores '
             'are covered by stabilize_post / nlsf_interp_enc_dec_agree.']
@@ -63,8 +63,16 @@ NOT_COVERED = ['index-safety bridge (OpusModel/SilkSynthIdx*.lean): the index ex
                'the theorems but outside the recorder; value-level state (conc_energy, conc_energy_shift, randScale_Q14, prevGain_Q16, '
                'prev_gain_Q16, CNG_smth_Gain_Q16) is not modelled - the state tie compares lossCnt, prevSignalType, lagPrev, '
                'first_frame_after_reset, sPLC.{fs_kHz, pitchL_Q8, nb_subfr, subfr_length, last_frame_lost, rand_seed}, '
-               'sCNG.{fs_kHz, rand_seed}; the stereo layer of dec_API.c, the resampler, OSCE / deep PLC builds, the clang '
-               'variant of the sLPC_Q14 allocation and everything the encoder does are not covered',
+               'sCNG.{fs_kHz, rand_seed}; output stage (decode_output_indices_in_bounds): the resampler kernels are index contracts '
+               '(input / output / state extents per call) tied by the recorder, not line-by-line models; VAD_flags / LBRR_flags, '
+               'silk_LBRR_flags_iCDF_ptr, nFramesDecoded indexing and the LBRR / multi-frame loops of silk_Decode are not modelled '
+               '(one frame per call, no FEC); initialised-before-read is proved only for the two fresh LTP state arrays sLTP_Q15 / '
+               'sLTP_Q14 (not for sLTP, res_Q14, the resampler scratch buffers or the samplesOut1_tmp rows); OSCE / deep PLC builds, '
+               'the clang variant of the sLPC_Q14 allocation are not covered',
+               'encoder side: only the integer tail of silk_pitch_analysis_core (pitch_enc_dec_agree), the gain quantiser and the NLSF '
+               'interpolation are modelled; that psEncCtrl->pitchL is not modified between the analyser and the NSQ / LTP analysis is a '
+               'structural fact of the source checked only by the encoder/decoder search on mono SILK-only streams (no stereo, no LBRR, '
+               'no DTX, 8/12/16 kHz API rates)',
                'silk_NLSF2A on UNORDERED in-range NLSF vectors of order 16: a32_QA1[k] = -/+Qtmp - Ptmp overflows opus_int32 '
                '(signed overflow, NLSF2A.c:125-126; theorem nlsf2a_d16_unordered_overflows). Not reachable: decoder and encoder '
                'pass ordered vectors (nlsf_decode_ordered; interpolation of ordered vectors is ordered), so not a violation of C18 '
@@ -77,8 +85,8 @@ NOT_COVERED = ['index-safety bridge (OpusModel/SilkSynthIdx*.lean): the index ex
                'the bound |rc| <= 0.99975 on every reflection coefficient of the FIXED-POINT step-down recursion '
                '(inverse_pred_gain_reflection_bounded) and the 1/MAX_PREDICTION_POWER_GAIN bound; the rounding-error analysis '
                'that would transfer this to exact arithmetic is not done',
-               'the LTP (long-term prediction) codebook gains and LTP scaling of silk_decode_parameters and the '
-               'bandwidth expansion after packet loss (silk_bwexpander on the Q12 filters) are not modelled',
+               'the VALUES of the LTP codebook gains / LTP scaling of silk_decode_parameters and the bandwidth expansion after packet '
+               'loss (silk_bwexpander on the Q12 filters) are not modelled (their table indices are: decode_parameters_indices_in_bounds)',
                'the encoder-side search that picks NLSF indices (silk_NLSF_encode / silk_NLSF_del_dec_quant) is not '
                'modelled: its reconstructed NLSFs are produced by a call to the modelled silk_NLSF_decode '
                '(NLSF_encode.c:119), which is a structural fact of the source, not a theorem',
@@ -248,6 +256,11 @@ def classify(ctx, tie, mm):
     why = None
     if impl in ('SANITIZER', 'ABORT', 'SIGSEGV'):
         why = 'the dequantiser trapped (%s: out-of-bounds table read, undefined behaviour or assertion) on this input' % impl
+    elif op in ('synthcore', 'synthframe') and impl.startswith('OK ') and mm.get('model', '').startswith('OK ') and \
+            re.sub(r' init\{[^}]*\}', '', impl) == re.sub(r' init\{[^}]*\}', '', mm.get('model', '')):
+        why = ('silk_decode_core / silk_PLC_conceal read an element of the fresh LTP state array (%s) before writing it, or the other way '
+               'round, against the model on which decode_core_no_uninitialised_ltp_read / plc_conceal_no_uninitialised_ltp_read are '
+               'proved (model: %s)' % (' '.join(re.findall(r'init\{[^}]*\}', impl)), ' '.join(re.findall(r'init\{[^}]*\}', mm.get('model', '')))))
     elif op == 'synthout':
         why = ('the element indices the output stage of silk_Decode (frame buffers, silk_stereo_MS_to_LR, silk_resampler incl. its '
                'kernels, interleaving; recorded on the repo source) actually read / wrote differ from the index model of theorem '
@@ -441,7 +454,12 @@ LEVEL_TEXT = ('proof: executable Lean model of the SILK side-information dequant
               '(complete for order 10; for order 16 up to the final subtraction forming a32_QA1, and after it whenever a32_QA1 '
               'fits), LPC_fit, bwexpander_32, LPC_inverse_pred_gain, gains_dequant/log2lin and decode_pitch on the domain the '
               'symbol decoder guarantees (C03 index ranges); codebook facts re-checked on the regenerated tables; model tied to '
-              'the code by an exact differential run under ASan/UBSan that also counts truncating casts on the real function')
+              'the code by an exact differential run under ASan/UBSan that also counts truncating casts on the real function; '
+              'encoder/decoder agreement of the pitch lags (integer tail of silk_pitch_analysis_core composed with silk_decode_pitch); '
+              'index-safety bridge: every array index of silk_decode_parameters, silk_decode_core, silk_PLC / silk_CNG, silk_decode_frame '
+              'and the output stage of silk_Decode (stereo un-mixing, resampler call extents) is in bounds over every decoder history, and '
+              'the fresh LTP state arrays are never read before being written, on an index model tied to the repo source by recorded '
+              'access extents, allocation sizes and a written-byte map')
 LEVEL_NOTE = ('trusted: Lean kernel; extractor + regen (tables go through gcc); the correspondence harness and line protocol; the '
               'trace functions of OpusProofs/SilkParamsRange*.lean that enumerate the C intermediates (read against the C source by '
               'hand). Not proved: that a32_QA1 of silk_NLSF2A fits 32 bits for ORDERED order-16 NLSFs (it overflows for unordered '
